@@ -29,7 +29,7 @@ def _blank_comments(t):
     return re.sub(r'"(?:\\.|[^"\\\n])*"', blank, t)
 
 
-def alloc_sites(repo, sources=None):
+def alloc_sites(repo, sources=None, with_guards=False):
     """Every call of libyara's allocator in the library sources that are built: [(file, function, line, callee)].
     mem.c (the allocator itself) is excluded; the enclosing function is the last definition header before the call
     (yara style: return type / name / parameters, then `{` in column 0)."""
@@ -48,7 +48,25 @@ def alloc_sites(repo, sources=None):
             continue
         lines = _blank_comments(open(pth, errors="replace").read()).split("\n")
         fn, header = "?", []
+        pp = []       # stack of preprocessor conditions enclosing the current line: "NAME" / "!NAME" for #ifdef/#ifndef/#if defined(NAME), else the text
         for i, l in enumerate(lines):
+            d = re.match(r"\s*#\s*(ifdef|ifndef|if|elif|else|endif)\b\s*(.*)", l)
+            if d:
+                kw, arg = d.group(1), d.group(2).strip()
+                if kw == "ifdef":
+                    pp.append(arg.split()[0] if arg else "?")
+                elif kw == "ifndef":
+                    pp.append("!" + (arg.split()[0] if arg else "?"))
+                elif kw == "if":
+                    m1 = re.fullmatch(r"defined\s*\(?\s*(\w+)\s*\)?", arg)
+                    m2 = re.fullmatch(r"!\s*defined\s*\(?\s*(\w+)\s*\)?", arg)
+                    pp.append(m1.group(1) if m1 else ("!" + m2.group(1) if m2 else "(" + arg + ")"))
+                elif kw in ("else", "elif") and pp:
+                    t = pp.pop()
+                    pp.append(t[1:] if t.startswith("!") else ("!" + t if re.fullmatch(r"\w+", t) else "(not " + t + ")"))
+                elif kw == "endif" and pp:
+                    pp.pop()
+                continue
             if l.startswith("{"):
                 h = " ".join(header)
                 m = re.findall(r"(\w+)\s*\(", h)
@@ -64,7 +82,8 @@ def alloc_sites(repo, sources=None):
             if l.startswith("#define") or (i > 0 and lines[i - 1].rstrip().endswith("\\")):
                 continue          # macro bodies: the call site is where the macro is used
             for m in ALLOC_CALL.finditer(l):
-                out.append((rel.replace("libyara/", "", 1), fn, i + 1, m.group(1)))
+                row = (rel.replace("libyara/", "", 1), fn, i + 1, m.group(1))
+                out.append(row + (tuple(pp),) if with_guards else row)
     return out
 
 
